@@ -250,3 +250,39 @@ pub fn c03_extend_from_stack() {
     cover!(true, "end reached");
     sym::forget((f, src));
 }
+
+// @h prop=C03 tier=quick kind=proof inst="FlatStack<MirrorRegion<usize>, IndexOptimized> iterator: next() x a, then nth(k), then the rest" bounds="copies 0,1,2 (strided indices) then 7, 3 (spilled; concrete values); a <= 3, k <= 4 symbolic" desc="iteration through nth / skip agrees with get(i): nth(k) is item a+k or None, the remainder follows in order, size hints stay valid"
+#[cfg_attr(kani, kani::proof, kani::unwind(8))]
+pub fn c03_mirror_opt_iter_jumps() {
+    let m = [0usize, 1, 2, 7, 3];
+    let mut fs = FlatStack::<MirrorRegion<usize>, IndexOptimized>::default();
+    let mut j = 0;
+    while j < 5 {
+        fs.copy(m[j]);
+        j += 1;
+    }
+    let a = sym::usize();
+    let k = sym::usize();
+    sym::assume(a <= 3 && k <= 4);
+    let mut it = fs.iter();
+    let mut j = 0;
+    while j < a {
+        assert!(it.next() == Some(m[j]), "C03: iteration yields a different item than was copied");
+        j += 1;
+    }
+    let got = it.nth(k);
+    let mut pos = a + k;
+    assert!(got == if pos < 5 { Some(m[pos]) } else { None }, "C03: iter.nth(k) is not the item k positions ahead / None");
+    pos += 1;
+    let (lo, hi) = it.size_hint();
+    let rest = if pos < 5 { 5 - pos } else { 0 };
+    assert!(lo <= rest && hi.map_or(true, |h| h >= rest), "C03: size hint after nth is not a valid bound");
+    while pos < 5 {
+        assert!(it.next() == Some(m[pos]), "C03: after nth the iterator replays or skips items");
+        pos += 1;
+    }
+    assert!(it.next().is_none(), "C03: after nth the iterator yields too many items");
+    drop(it);
+    cover!(true, "end reached");
+    sym::forget(fs);
+}
